@@ -68,7 +68,11 @@ impl Model for RollModel {
     }
     fn next_state(&self, s: &RState, c: u8) -> Option<RState> {
         TRANSITIONS.fetch_add(1, Ordering::Relaxed);
-        let (r, dis) = roll_step_all_forms(&s.r, c);
+        // a panic inside the library is a violation, not a crash of the explorer
+        let (r, dis) = match guarded(|| roll_step_all_forms(&s.r, c)) {
+            Ok(x) => x,
+            Err(_) => (s.r.clone(), true),
+        };
         let mut l = s.last7;
         l.rotate_left(1);
         l[6] = c;
@@ -85,6 +89,10 @@ impl Model for RollModel {
 }
 
 fn roll_replay(path: &[u8]) -> Result<(), String> {
+    guarded(|| roll_replay_inner(path)).unwrap_or_else(|p| Err(format!("panic in the rolling hash after {}: {}", hex(path), p)))
+}
+
+fn roll_replay_inner(path: &[u8]) -> Result<(), String> {
     let mut r = RollingHash::new();
     for (i, &c) in path.iter().enumerate() {
         let (n, dis) = roll_step_all_forms(&r, c);
@@ -224,7 +232,10 @@ impl Model for FnvModel {
     }
     fn next_state(&self, s: &FState, c: u8) -> Option<FState> {
         TRANSITIONS.fetch_add(1, Ordering::Relaxed);
-        let (h, dis) = fnv_step_all_forms(&s.h, c);
+        let (h, dis) = match guarded(|| fnv_step_all_forms(&s.h, c)) {
+            Ok(x) => x,
+            Err(_) => (s.h.clone(), true),
+        };
         let mut w = s.witness.clone();
         w.push(c);
         let mut bad = None;
@@ -243,6 +254,10 @@ impl Model for FnvModel {
 }
 
 fn fnv_replay(path: &[u8]) -> Result<(), String> {
+    guarded(|| fnv_replay_inner(path)).unwrap_or_else(|p| Err(format!("panic in the partial FNV hash after {}: {}", hex(path), p)))
+}
+
+fn fnv_replay_inner(path: &[u8]) -> Result<(), String> {
     let mut h = PartialFNVHash::new();
     if h.value() != refmodel::fnv6(&[]) {
         return Err("initial value".into());
@@ -369,14 +384,23 @@ pub fn run(ctx: &Ctx) -> Report {
             let mut stack: Vec<Vec<u8>> = vec![vec![alpha[i / alpha.len()], alpha[i % alpha.len()]]];
             while let Some(s) = stack.pop() {
                 // incremental: only the last prefix is new
-                let mut h = PartialFNVHash::new();
-                h.update(&s);
                 acc.evaluations += 1;
                 acc.nontrivial += 1;
-                if h.value() != refmodel::fnv6(&s) {
+                let v = match guarded(|| {
+                    let mut h = PartialFNVHash::new();
+                    h.update(&s);
+                    h.value()
+                }) {
+                    Ok(v) => v,
+                    Err(p) => {
+                        acc.violation("fnv direct".into(), format!("panic after {}: {}", hex(&s), p), case("fnv", &s));
+                        continue;
+                    }
+                };
+                if v != refmodel::fnv6(&s) {
                     acc.violation("fnv direct".into(), format!("value after {}", hex(&s)), case("fnv", &s));
                 }
-                acc.bump(&format!("value={}", h.value() / 16 * 16));
+                acc.bump(&format!("value={}", v / 16 * 16));
                 if s.len() < maxl {
                     for &c in &alpha {
                         let mut t = s.clone();
@@ -418,11 +442,14 @@ pub fn run(ctx: &Ctx) -> Report {
                         acc.violation("fnv blocks".into(), e, case("fnv", &s));
                     }
                     // the array form of the block itself
-                    let mut a = PartialFNVHash::new();
                     let arr: [u8; 16] = block.clone().try_into().unwrap();
-                    a += &arr;
-                    if a.value() != refmodel::fnv6(&block) {
-                        acc.violation("fnv array16".into(), format!("+= &[u8; 16] of {} gives {}", hex(&block), a.value()), case("fnv", &block));
+                    let av = guarded(|| {
+                        let mut a = PartialFNVHash::new();
+                        a += &arr;
+                        a.value()
+                    });
+                    if av != Ok(refmodel::fnv6(&block)) {
+                        acc.violation("fnv array16".into(), format!("+= &[u8; 16] of {} gives {:?}", hex(&block), av), case("fnv", &block));
                     }
                 }
             }
